@@ -75,6 +75,8 @@ type Node struct {
 	FailEOF bool
 	// interrupts
 	RerunN int // number of attempts that answer InterruptAndRerun
+	// NodeKey: chain branch alternatives: the node is added with an explicit node key
+	NodeKey bool
 	// Interim: the node's output carries a progress counter "z:<key>" whose final value is 0; in
 	// stream form the node first emits an interim value of it (integers concatenate last-wins)
 	Interim bool
